@@ -1,10 +1,10 @@
 package main
 
 import (
-	"reflect"
 	"encoding/json"
 	"math/rand"
 	"os"
+	"reflect"
 
 	"github.com/bluenviron/gomavlib/v3/pkg/message"
 )
@@ -54,10 +54,10 @@ func distinctBytes(base, n int) B {
 }
 
 type msgDriver struct {
-	rec   *Rec
+	rec    *Rec
 	protos []message.Message
-	defs  []DefJ
-	rws   []*message.ReadWriter
+	defs   []DefJ
+	rws    []*message.ReadWriter
 }
 
 func safeInit(m message.Message) (rw *message.ReadWriter, ok bool, panicked bool) {
@@ -185,9 +185,9 @@ var hashCollisions = [][2]string{
 	{"SERVO1324_FF", "FLTMODE719_I"}, {"WPNAV250_D", "EK3486_MAX"}, {"INS1697_FUNCTION", "LOG1639_REVERSED"}, // FNV-1a/32
 	{"RC66266_FF", "EK317754_P"}, {"RC28315_REVERSED", "ARMING67942_TRIM"}, // FNV-1a/32
 	{"LOG35868_P", "MOT27275_I"}, {"BATT24925_ENABLE", "PSC9575_REVERSED"}, // FNV-1/32
-	{"RC30335_FUNCTION", "FLTMODE30678_MAX"}, // CRC-32 (IEEE)
+	{"RC30335_FUNCTION", "FLTMODE30678_MAX"},                               // CRC-32 (IEEE)
 	{"INS60877_P", "MOT17392_P"}, {"FLTMODE96827_MIN", "RC57743_REVERSED"}, // djb2
-	{"COMPASS99549_MIN", "BATT39381_ENABLE"}, // h*31+c
+	{"COMPASS99549_MIN", "BATT39381_ENABLE"},                               // h*31+c
 	{"PSC16050_I", "LOG67125_D"}, {"COMPASS15040_MIN", "FLTMODE36372_MIN"}, // Adler-32
 }
 
